@@ -292,19 +292,31 @@ def recvInfo (s : St) (sender : Nat) (i : Info) : St :=
 def setCard (c : OwnCluster) (p : List Nat) : OwnCluster :=
   { c with pending := p, card := max minClusterSize (p.length + 1) }
 
-def leaderTrack (c : OwnCluster) (sender : Nat) (o : OpC) : OwnCluster :=
-  let c := if o.join = some c.cid then setCard c (if c.pending.contains sender then c.pending else sender :: c.pending) else c
+def trackJoin (c : OwnCluster) (sender : Nat) (o : OpC) : OwnCluster :=
+  if o.join = some c.cid then setCard c (if c.pending.contains sender then c.pending else sender :: c.pending) else c
+
+def trackLeave (c : OwnCluster) (sender : Nat) (o : OpC) : OwnCluster :=
   if o.leave = some c.cid then setCard c (c.pending.filter (· != sender)) else c
 
+def leaderTrack (c : OwnCluster) (sender : Nat) (o : OpC) : OwnCluster :=
+  trackLeave (trackJoin c sender o) sender o
+
+/-- the leader tracks join/leave notifications for its own cluster -/
+def recvTrack (s : St) (sender : Nat) (o : OpC) : St :=
+  match s.state, s.cluster with
+  | .leader, some c => { s with cluster := some (leaderTrack c sender o) }
+  | _, _ => s
+
+/-- break-up indication with reason `r` heard from `sender` -/
+def recvBreakup (var : Variant) (s : St) (sender : Nat) (r : Nat) : St :=
+  if s.state = .passive ∧ (s.leader = some sender ∨ s.joined = some 0) then
+    if r = breakupCpm ∧ var.cpmFrees = false then s else doLeave s leaveDisbandedByLeader
+  else s
+
 def recvOp (var : Variant) (s : St) (sender : Nat) (o : OpC) : St :=
-  let s := match s.state, s.cluster with
-    | .leader, some c => { s with cluster := some (leaderTrack c sender o) }
-    | _, _ => s
+  let s := recvTrack s sender o
   match o.breakup with
-  | some r =>
-    if s.state = .passive ∧ (s.leader = some sender ∨ s.joined = some 0) then
-      if r = breakupCpm ∧ var.cpmFrees = false then s else doLeave s leaveDisbandedByLeader
-    else s
+  | some r => recvBreakup var s sender r
   | none => s
 
 /-- does this VAM count as a sign of life of the joined cluster? -/
@@ -312,14 +324,25 @@ def isHeartbeat (var : Variant) (s : St) (v : Vam) : Bool :=
   s.state = .passive && s.leader == some v.sender &&
     (var.hbAny || (match v.info with | some i => s.joined == some (i.cid.getD 0) | none => false))
 
+def recvVrus (s : St) (v : Vam) : St :=
+  { s with vrus := upsertVru s.vrus { station := v.sender, x := v.x, y := v.y, lastSeen := s.now } }
+
+/-- (old) `bbox["circular"]` on the decoded tuple raises TypeError: the rest of the VAM is skipped -/
+def recvAborted (var : Variant) (v : Vam) : Bool :=
+  var.tupleFails && (match v.info with | some i => i.shape == .circular | none => false)
+
+def recvInfoOpt (s : St) (v : Vam) : St :=
+  match v.info with | some i => recvInfo s v.sender i | none => s
+
+def recvOpOpt (var : Variant) (s : St) (v : Vam) : St :=
+  match v.op with | some o => recvOp var s v.sender o | none => s
+
+def recvHb (var : Variant) (s : St) (v : Vam) : St :=
+  if isHeartbeat var s v then { s with last := some s.now } else s
+
 def recv (var : Variant) (s : St) (v : Vam) : St :=
-  let s := { s with vrus := upsertVru s.vrus { station := v.sender, x := v.x, y := v.y, lastSeen := s.now } }
-  let aborted := var.tupleFails && (match v.info with | some i => i.shape == .circular | none => false)
-  if aborted then s
-  else
-    let s := match v.info with | some i => recvInfo s v.sender i | none => s
-    let s := match v.op with | some o => recvOp var s v.sender o | none => s
-    if isHeartbeat var s v then { s with last := some s.now } else s
+  let s := recvVrus s v
+  if recvAborted var v then s else recvHb var (recvOpOpt var (recvInfoOpt s v) v) v
 
 /-! ## step -/
 
@@ -363,10 +386,13 @@ structure OpOut where
 def OpOut.orNone (o : OpOut) : Option OpOut :=
   if o.join.isNone ∧ o.leave.isNone ∧ o.breakup.isNone then none else some o
 
-/-- `min(127, int(max(0, total − elapsed) / 0.25 s))`, `started or now` included -/
+/-- `max(1, min(127, int(max(0, total − elapsed) / 0.25 s)))` (DeltaTimeQuarterSecond is 1..127) -/
+def quarters (left : Nat) : Nat := max 1 (min 127 (left / 250))
+
+/-- join time left, `started or now` included -/
 def quarterLeft (now : Nat) (started : Option Nat) (total : Nat) : Nat :=
   let st := match started with | some t => if t = 0 then now else t | none => now
-  min 127 ((total - (now - st)) / 250)
+  quarters (total - (now - st))
 
 /-- the `clusterLeaveInfo` of a leave notification after cluster membership -/
 def leaveOut (s : St) : Option (Nat × Nat) :=
@@ -392,7 +418,7 @@ def opContainer (var : Variant) (s : St) : Option OpOut :=
       | some t =>
         -- `elapsed = now - breakup_started` (no `or now` here)
         some { breakup := some (c.breakupReason.getD breakupNotProvided,
-                                min 127 ((timeClusterBreakupWarning - (s.now - t)) / 250)) }
+                                quarters (timeClusterBreakupWarning - (s.now - t))) }
       | none => none
   | .idle => none
 
